@@ -48,9 +48,11 @@ EType(c) == CASE c = "enum-A"  -> EnumT(<<"A">>)
 
 UChoices == IF Rich THEN {"absent", "union-T", "union-TV"} ELSE {"absent"}
 
-SvcChoice == [t : TChoices, e : EChoices, u : UChoices, shared : BOOLEAN]
+SvcChoice == [t : TChoices, e : EChoices, u : UChoices, shared : BOOLEAN, lookup : BOOLEAN]
 
-WellFormed(c) == c.u # "absent" => c.t # "absent"    \* a union member must be declared
+IsNodeChoice(t) == t \in {"node", "node-f", "node-fInt", "node-g"}
+WellFormed(c) == /\ (c.u # "absent" => c.t # "absent")    \* a union member must be declared
+                 /\ (c.lookup => (Rich /\ IsNodeChoice(c.t)))   \* a root field shaped like the node entry point: lookup(id: ID!): Node
 
 MkSvc(i, c) ==
    LET tys0 == (IF c.t # "absent" THEN F1("T", TType(c.t)) ELSE [x \in {} |-> Obj(FALSE, NoFields)])
@@ -60,7 +62,8 @@ MkSvc(i, c) ==
                  [] OTHER -> tys1
        q0 == F1("q" \o ToString(i), Fld("String"))
        q1 == IF c.shared THEN q0 @@ F1("qs", Fld("String")) ELSE q0
-       q2 == IF c.u # "absent" THEN q1 @@ F1("u" \o ToString(i), Fld("U")) ELSE q1
+       q2a == IF c.u # "absent" THEN q1 @@ F1("u" \o ToString(i), Fld("U")) ELSE q1
+       q2 == IF c.lookup THEN q2a @@ F1("lookup" \o ToString(i), [ty |-> "Node", args |-> [x \in {"id"} |-> "ID!"], dep |-> ""]) ELSE q2a
    IN [url |-> "http://g" \o ToString(i) \o ".test",
        types |-> tys2,
        roots |-> [r \in RootNames |-> IF r = "Query" THEN q2 ELSE NoFields],
